@@ -69,6 +69,8 @@ def plans(seed, tier, count):
     for i, e in enumerate(EDITS):
         out.append({'property': PROP, 'seed': core.H('fix02', 'edit', i), 'kind': 'edit', 'edit': e})
     out.insert(0, {'property': PROP, 'seed': core.H('fix02', 'regen'), 'kind': 'regen', 'all_cases': True})
+    out.insert(1, {'property': PROP, 'seed': core.H('fix02', 'live', 0), 'kind': 'edit_live', 'edit': EDITS[0]})
+    out.insert(2, {'property': PROP, 'seed': core.H('fix02', 'live', 1), 'kind': 'edit_live', 'edit': EDITS[-1]})
     out.append({'property': PROP, 'seed': core.H('fix02', 'del_init'), 'kind': 'deleted', 'file': '__init__.py'})
     # truncations behind the checksum line (the file still names the right md5, its body is gone) and an overwritten checksum
     out.insert(1, {'property': PROP, 'seed': core.H('fix02', 'torn', 0), 'kind': 'torn', 'file': 'Shunt.py', 'frac': 0.6})
@@ -84,9 +86,9 @@ def plans(seed, tier, count):
 def elaborate(stub):
     seed = stub['seed']
     r = stream(seed, 'kind')
-    kind = r.choice(['edit', 'edit', 'stale_md5', 'torn', 'torn', 'torn', 'deleted', 'crash', 'crash', 'regen'])
+    kind = r.choice(['edit', 'edit', 'edit_live', 'stale_md5', 'torn', 'torn', 'torn', 'deleted', 'crash', 'crash', 'regen'])
     p = {'property': PROP, 'seed': seed, 'kind': kind}
-    if kind == 'edit':
+    if kind in ('edit', 'edit_live'):
         p['edit'] = r.choice(EDITS)
     elif kind in ('stale_md5', 'torn', 'deleted'):
         p['file'] = r.choice(STORE_FILES) if not (kind == 'deleted' and r.random() < 0.25) else '__init__.py'
@@ -173,6 +175,25 @@ def execute(plan):
             judge_eval(r3, 'original model on a store generated for the edited one', v, probes)
             if _read(store, e['model'] + '.py') != before:
                 v.append(V('regen_identity', 'regenerating %s for the original model does not restore the original bytes' % e['model'],
+                           what='bytes_differ'))
+        elif kind == 'edit_live':
+            e = plan['edit']
+            detail = 'live %s.%s' % (e['model'], e['var'])
+            before = _read(store, e['model'] + '.py')
+            # one interpreter: load, evaluate, edit the equation on the live instance, regenerate incrementally in place, evaluate again
+            r1, _ = child(home, {'live_edit': e, 'ops': ['new_system', 'eval', 'edit_live', 'prepare_live', 'eval'], 'seed': seed, 'cases': []})
+            judge_eval(r1, 'equation edited on the live System, incremental regeneration in the same process', v, probes)
+            steps = {s_['op']: s_ for s_ in (r1 or {}).get('steps', [])}
+            if 'prepare_live' in steps and steps['prepare_live'].get('ok') and e['model'] not in steps['prepare_live'].get('regenerated', []):
+                v.append(V('store', 'the equation of %s was changed on the live System but an incremental regeneration on that instance did '
+                           'not regenerate the model' % detail, what='not_regenerated_live'))
+            else:
+                probes['regenerated_models'] = probes.get('regenerated_models', 0) + 1
+            # a fresh session with the stock model: whatever the first session left on disk must not be used for the stock equations
+            r2, _ = child(home, {'ops': ['new_system', 'eval'], 'seed': seed + 1})
+            judge_eval(r2, 'stock model after a session that edited it live', v, probes)
+            if _norm(e['model'] + '.py', _read(store, e['model'] + '.py')) != _norm(e['model'] + '.py', before):
+                v.append(V('regen_identity', 'after the live edit of %s a fresh session does not restore the original generated bytes' % e['model'],
                            what='bytes_differ'))
         elif kind == 'stale_md5':
             f = plan['file']
